@@ -53,7 +53,8 @@ def main():
     ap.add_argument("-j", type=int, default=6)
     ap.add_argument("--file", default=None, help="alternative mutant json")
     ap.add_argument("extra", nargs="*")
-    a = ap.parse_args()
+    a, unknown = ap.parse_known_args()
+    a.extra = list(a.extra) + [u for u in unknown if u != "--"]
     src = a.file or os.path.join(HERE, "mutants", f"{a.pid}.json")
     muts = json.load(open(src))
     if a.only:
@@ -65,7 +66,7 @@ def main():
         line = f"| {a.pid} | {name} | {status} | {dt:.0f}s | {detail.replace('|', '/')} |"
         print(line)
         lines.append(line)
-    if not a.only and not a.file:
+    if not a.only and not a.file and not a.extra:
         path = os.path.join(HERE, "mutants", "RESULTS.md")
         old = open(path).read().splitlines() if os.path.exists(path) else ["| property | mutant | result (quick tier) | time | first bucket |", "|---|---|---|---|---|"]
         old = [l for l in old if not l.startswith(f"| {a.pid} |")]
